@@ -69,10 +69,12 @@ type programL struct {
 	B         map[string]subBehaviour
 	TTL       time.Duration // explicit beresp.ttl set in vcl_fetch
 	Cacheable bool
-	RateDelta int  // >0: recv increments a rate counter by this much
-	RateForm  int  // how: 0 ratecounter_increment, 1 check_rate, 2 check_rates as its second counter (the first one trips), 3 check_rates as its first counter
-	Penalty   bool // recv adds the client to a penalty box when X-Punish is set
-	HashVary  bool // vcl_hash adds the X-V request header to the hash
+	RateDelta int            // >0: recv increments a rate counter by this much
+	Wrap      map[string]int // per subroutine: the syntactic form its actions are written in (wrapStmt)
+	Fresh     string         // "" (vcl_fetch sets beresp.ttl) or who decides freshness at the origin: expires-past | max-age | surrogate | s-maxage
+	RateForm  int            // how: 0 ratecounter_increment, 1 check_rate, 2 check_rates as its second counter (the first one trips), 3 check_rates as its first counter
+	Penalty   bool           // recv adds the client to a penalty box when X-Punish is set
+	HashVary  bool           // vcl_hash adds the X-V request header to the hash
 }
 
 func stmtFor(action string) string {
@@ -89,6 +91,24 @@ func stmtFor(action string) string {
 	return ""
 }
 
+// wrapStmt writes an action in one of several equivalent ways: behind
+// conditions that are always true for the requests of this workload (the
+// marker header is always set and starts with "m"), after branches that are
+// never taken and would end the request differently if they were.
+func wrapStmt(form int, st string) string {
+	switch form {
+	case 1:
+		return "if (req.http.X-Never) {\n    error 777 \"never\";\n  } else if (req.http.X-Marker) {\n    " + st + "\n  }"
+	case 2:
+		return "if (!req.http.X-Marker) {\n    error 777 \"never\";\n  } else {\n    " + st + "\n  }"
+	case 3:
+		return "if (req.http.X-Never == \"1\") {\n    error 777 \"never\";\n  } else if (req.http.X-Marker ~ \"^m\") {\n    " + st + "\n  } else {\n    error 778 \"never\";\n  }"
+	case 4:
+		return "if (req.http.X-Never) {\n    error 777 \"never\";\n  } else if (req.http.X-Never2) {\n    error 778 \"never\";\n  } else if (req.restarts >= 0) {\n    " + st + "\n  }"
+	}
+	return st
+}
+
 func (p *programL) render() string {
 	var b strings.Builder
 	b.WriteString("backend F_origin {\n  .host = \"origin.test\";\n  .port = \"80\";\n  .first_byte_timeout = 5s;\n  .connect_timeout = 1s;\n  .between_bytes_timeout = 2s;\n}\n")
@@ -102,16 +122,16 @@ func (p *programL) render() string {
 			if p.RateDelta > 0 {
 				b.WriteString("  declare local var.n INTEGER;\n")
 				// every form increments rc_a by RateDelta for this client, once per request
-				b.WriteString("  declare local var.lim BOOL;\n")
+				b.WriteString("  declare local var.lim BOOL;\n  declare local var.d INTEGER;\n  set var.d = std.atoi(req.http.X-Delta);\n")
 				switch p.RateForm {
 				case 1:
-					fmt.Fprintf(&b, "  if (req.restarts == 0) {\n    set var.lim = ratelimit.check_rate(req.http.X-Client, rc_a, %d, 10, 10, pb_b, 2m);\n  }\n", p.RateDelta)
+					fmt.Fprintf(&b, "  if (req.restarts == 0) {\n    set var.lim = ratelimit.check_rate(req.http.X-Client, rc_a, var.d, 10, 10, pb_b, 2m);\n  }\n")
 				case 2:
-					fmt.Fprintf(&b, "  if (req.restarts == 0) {\n    set var.lim = ratelimit.check_rates(req.http.X-Client, rc_b, 100000, 1, 10, rc_a, %d, 10, 10, pb_b, 2m);\n  }\n", p.RateDelta)
+					fmt.Fprintf(&b, "  if (req.restarts == 0) {\n    set var.lim = ratelimit.check_rates(req.http.X-Client, rc_b, 100000, 1, 10, rc_a, var.d, 10, 10, pb_b, 2m);\n  }\n")
 				case 3:
-					fmt.Fprintf(&b, "  if (req.restarts == 0) {\n    set var.lim = ratelimit.check_rates(req.http.X-Client, rc_a, %d, 10, 10, rc_b, 1, 60, 70000000, pb_b, 2m);\n  }\n", p.RateDelta)
+					fmt.Fprintf(&b, "  if (req.restarts == 0) {\n    set var.lim = ratelimit.check_rates(req.http.X-Client, rc_a, var.d, 10, 10, rc_b, 1, 60, 70000000, pb_b, 2m);\n  }\n")
 				default:
-					fmt.Fprintf(&b, "  if (req.restarts == 0) {\n    set var.n = ratelimit.ratecounter_increment(rc_a, req.http.X-Client, %d);\n  }\n", p.RateDelta)
+					fmt.Fprintf(&b, "  if (req.restarts == 0) {\n    set var.n = ratelimit.ratecounter_increment(rc_a, req.http.X-Client, var.d);\n  }\n")
 				}
 				b.WriteString("  set req.http.X-Bucket = ratecounter.rc_a.bucket.60s;\n")
 			}
@@ -126,7 +146,9 @@ func (p *programL) render() string {
 				b.WriteString("  set req.hash += req.http.X-V;\n")
 			}
 		case "fetch":
-			if p.Cacheable {
+			if p.Fresh != "" {
+				// the origin's headers decide
+			} else if p.Cacheable {
 				fmt.Fprintf(&b, "  set beresp.cacheable = true;\n  set beresp.ttl = %ds;\n", int(p.TTL.Seconds()))
 			} else {
 				b.WriteString("  set beresp.cacheable = false;\n")
@@ -137,11 +159,11 @@ func (p *programL) render() string {
 		sb := p.B[s]
 		if sb.K > 0 {
 			if st := stmtFor(sb.First); st != "" {
-				fmt.Fprintf(&b, "  if (req.restarts < %d) {\n    %s\n  }\n", sb.K, st)
+				fmt.Fprintf(&b, "  if (req.restarts < %d) {\n    %s\n  }\n", sb.K, wrapStmt(p.Wrap[s], st))
 			}
 		}
 		if st := stmtFor(sb.Then); st != "" {
-			fmt.Fprintf(&b, "  %s\n", st)
+			fmt.Fprintf(&b, "  %s\n", wrapStmt(p.Wrap[s], st))
 		}
 		b.WriteString("}\n")
 	}
@@ -421,6 +443,10 @@ func drawProgramL(c *worker.Ctx) *programL {
 	}
 	p.Penalty = c.T.Bool(1, 3)
 	p.HashVary = c.T.Bool(1, 3)
+	if c.T.Bool(1, 5) {
+		p.Fresh = []string{"expires-past", "max-age", "surrogate", "s-maxage"}[c.T.Draw(4)]
+		p.Cacheable = true
+	}
 	for _, s := range scopes {
 		pick := func() string {
 			la := legalActions[s]
@@ -444,6 +470,12 @@ func drawProgramL(c *worker.Ctx) *programL {
 			sb.First = pick()
 		}
 		p.B[s] = sb
+		if c.T.Bool(1, 3) {
+			if p.Wrap == nil {
+				p.Wrap = map[string]int{}
+			}
+			p.Wrap[s] = 1 + c.T.Draw(4)
+		}
 	}
 	return p
 }
@@ -518,6 +550,12 @@ func runC06(c *worker.Ctx) {
 			sp.Header.Set("X-Punish", "1")
 		}
 		sp.Header.Set("X-V", []string{"v1", "v2"}[c.T.Draw(2)])
+		// this request's increment: the program's delta, or none at all
+		if p.RateDelta > 0 && c.T.Bool(1, 4) {
+			sp.Header.Set("X-Delta", "0")
+		} else {
+			sp.Header.Set("X-Delta", fmt.Sprint(p.RateDelta))
+		}
 		if c.T.Bool(2, 3) {
 			sp.Header.Set("X-Check", "1")
 		}
@@ -535,6 +573,17 @@ func runC06(c *worker.Ctx) {
 	// origin behaviour per round trip
 	behave := func(req *http.Request, n int) simnet.Behaviour {
 		b := simnet.Behaviour{Kind: "ok", Status: 200, Header: http.Header{"Content-Type": {"text/plain"}, "X-Origin-Saw": {req.Header.Get("X-Marker")}}, Body: []byte("body-of-" + req.URL.Path), BodyErrAfter: -1, Latency: time.Duration(c.T.Draw(200)) * time.Millisecond}
+		switch p.Fresh {
+		case "expires-past":
+			b.Header.Set("Expires", "Thu, 01 Jan 1970 00:00:00 GMT")
+		case "max-age":
+			b.Header.Set("Cache-Control", fmt.Sprintf("max-age=%d", int(p.TTL.Seconds())))
+		case "surrogate":
+			b.Header.Set("Surrogate-Control", fmt.Sprintf("max-age=%d", int(p.TTL.Seconds())))
+			b.Header.Set("Cache-Control", "max-age=1") // the surrogate header wins
+		case "s-maxage":
+			b.Header.Set("Cache-Control", fmt.Sprintf("s-maxage=%d", int(p.TTL.Seconds())))
+		}
 		if faulty {
 			switch c.T.Draw(8) {
 			case 0:
@@ -724,7 +773,9 @@ func runC06(c *worker.Ctx) {
 		// 4. rate counter and penalty box persistence
 		if p.RateDelta > 0 && contains(obs, "deliver") && !reported && r.Proc.Restarts == 0 && len(obs) > 0 {
 			client := r.Spec.Header.Get("X-Client")
-			lo, hi := p.RateDelta, p.RateDelta // own increment is always in the current bucket
+			own := 0
+			fmt.Sscanf(r.Spec.Header.Get("X-Delta"), "%d", &own)
+			lo, hi := own, own // own increment is always in the current bucket
 			for _, inc := range m.incs {
 				if inc.client != client {
 					continue
@@ -741,8 +792,11 @@ func runC06(c *worker.Ctx) {
 			fmt.Sscanf(r.Proc.ClientResponse.Headers["x-bucket"], "%d", &got)
 			if got < lo || got > hi {
 				res.Violate("C06/state", "C06/state:ratecounter", fmt.Sprintf("request %d: ratecounter bucket.60s reads %q, increments by earlier requests imply [%d,%d]\nprogram:\n%s", i, r.Proc.ClientResponse.Headers["x-bucket"], lo, hi, vcl))
-			} else if lo > p.RateDelta {
+			} else if lo > own {
 				res.Probe("ratecounter_carried_over")
+			}
+			if own == 0 {
+				res.Probe("zero_delta_request")
 			}
 		}
 		if p.Penalty && r.Spec.Header.Get("X-Check") != "" && contains(obs, "deliver") && !reported && r.Proc.Restarts == 0 {
@@ -774,7 +828,11 @@ func runC06(c *worker.Ctx) {
 		if contains(obs, "recv") {
 			client := r.Spec.Header.Get("X-Client")
 			if p.RateDelta > 0 {
-				m.incs = append(m.incs, rateInc{r.StartedAt, client, p.RateDelta})
+				own := 0
+				fmt.Sscanf(r.Spec.Header.Get("X-Delta"), "%d", &own)
+				if own > 0 {
+					m.incs = append(m.incs, rateInc{r.StartedAt, client, own})
+				}
 			}
 			if p.Penalty && r.Spec.Header.Get("X-Punish") != "" {
 				m.penalties = append(m.penalties, penaltyAdd{r.StartedAt, client, 2 * time.Minute})
@@ -788,6 +846,12 @@ func runC06(c *worker.Ctx) {
 			// every completed fetch may have stored something under this hash
 			definite := v.exact && r.Proc.Restarts == 0 && !reported && t.Result == "status:200" && p.Cacheable &&
 				equalStr(obs, []string{"recv", "hash", "miss", "fetch", "deliver", "log"}) && (p.B["fetch"].at(0) == "" || p.B["fetch"].at(0) == "ret:deliver")
+			if p.Fresh == "expires-past" {
+				// the origin says the response expired long ago: there is no
+				// unexpired object to store, whatever the simulator does with it
+				res.Probe("origin_sent_expired_response")
+				continue
+			}
 			m.cache[hash] = append(m.cache[hash], cacheEntry{storedAt: t.Done, expiry: t.Done.Add(p.TTL), definite: definite})
 			if !p.Cacheable {
 				// not cacheable: nothing may be stored; keep a non-definite marker only
